@@ -48,6 +48,7 @@ type creq struct {
 	form       bool
 	name       nm
 	role       bool
+	aoff       bool // disable_auto_start: the task is created, and reloaded after a restart, without being started
 	mapping    []nm
 	fault      string // none list limit put
 }
@@ -100,7 +101,7 @@ func code(err error) int {
 
 func mkReq(c creq) *request.CreateRequest {
 	r := &request.CreateRequest{TaskID: c.id, KafkaConnectParam: model.KafkaConnectParam{Address: c.target, Topic: "t"},
-		ExtraInfo: model.ExtraInfo{EnableUserRole: c.role}}
+		ExtraInfo: model.ExtraInfo{EnableUserRole: c.role}, DisableAutoStart: c.aoff}
 	if c.form {
 		r.CollectionInfos = []model.CollectionInfo{{Name: c.name.coll}}
 	} else {
@@ -282,6 +283,9 @@ func main() {
 		o3.c.role = true
 		runCase(out, []oper{o3, del("t01"), o2}, "corpus: user-role flag kept after delete")
 		runCase(out, []oper{o3, mk("t02", "127.0.0.1:19092", "db1", "c2"), {kind: "restart"}, func() oper { x := mk("t03", "127.0.0.1:19092", "db1", "c3"); x.c.role = true; return x }()}, "corpus: user-role flag lost by reload")
+		// a task created with disable_auto_start stays known after a restart: a second task for its collection is still refused
+		runCase(out, []oper{func() oper { x := mk("t01", "127.0.0.1:19092", "db1", "c1"); x.c.aoff = true; return x }(), mk("t02", "127.0.0.1:19092", "db2", "c2"), {kind: "restart"},
+			mk("t03", "127.0.0.1:19092", "db1", "c1"), del("t01"), mk("t04", "127.0.0.1:19092", "db1", "c1")}, "corpus: a task that is not auto-started keeps its names over a restart")
 		runCase(out, []oper{mk("t01", "127.0.0.1:19092", "db1", "c1"), mk("t02", "127.0.0.1:19092", "db1", "*"), mk("t03", "127.0.0.1:19092", "*", "*"), del("t03"), del("t01"), mk("t04", "127.0.0.1:19092", "db1", "c1")}, "corpus: shared exclude removed with one owner")
 	}
 	runCase(out, []oper{mk("t01", "127.0.0.1:19092", "db1", "c1"), mk("t02", "127.0.0.1:19092", "db1", "*"), mk("t03", "127.0.0.1:19092", "*", "*"),
@@ -317,6 +321,7 @@ func main() {
 					c.form = true
 				}
 				c.role = r.Intn(6) == 0
+				c.aoff = r.Intn(4) == 0
 				switch r.Intn(12) {
 				case 0:
 					c.mapping = []nm{{c.name.db, "c1"}}
